@@ -37,6 +37,9 @@ def build_schema(spec=None):
         d=fields.DATETIME(sortable=spec.get("d_sortable", False), stored=False),
         g=fields.ID(stored=True, sortable=spec.get("g_sortable", False)),
     )
+    if spec.get("dyn_glob"):
+        # a dynamic (glob) field: documents use concrete names such as a_dyn / b_dyn
+        s.add("*_dyn", fields.KEYWORD(stored=True, scorable=True), glob=True)
     if spec.get("c_column"):
         # a field that is a column only (no postings, not stored)
         s.add("c", fields.COLUMN())
@@ -57,6 +60,8 @@ def doc_kwargs(doc):
         kw["g"] = doc["g"]
     if doc.get("c") is not None:
         kw["c"] = doc["c"].encode("utf8")
+    for name, val in (doc.get("dyn") or {}).items():
+        kw[name + "_dyn"] = list(val)
     if doc.get("boost") not in (None, 1.0):
         kw["_boost"] = doc["boost"]
     return kw
